@@ -36,10 +36,10 @@ pub fn lanes_of(id: &str) -> Vec<(&'static str, LaneFn)> {
         "C07" => vec![("trees", c07::trees), ("integers", c07::integers), ("nonminimal", c07::nonminimal)],
         "C08" => vec![("generated", c08::generated), ("exhaustive", c08::exhaustive), ("mutated", c08::mutated), ("rejection", c08::rejection_classes)],
         "C09" => vec![("exhaustive_short", c09::exhaustive_short), ("exhaustive_meta", c09::exhaustive_meta), ("random", c09::random)],
-        "C10" => vec![("streams", c10::streams), ("search_collect", c10::search_collect), ("sync_streams", c10::sync_streams)],
+        "C10" => vec![("streams", c10::streams), ("search_collect", c10::search_collect), ("sync_streams", c10::sync_streams), ("paged_early_finish", c10::paged_early_finish)],
         "C11" => vec![("decoder", c11::decoder), ("driver", c11::driver), ("stack", c11::stack)],
         "C12" => vec![("timeouts", c12::timeouts)],
-        "C13" => vec![("histories", c13::histories), ("long_histories", c13::long_histories)],
+        "C13" => vec![("histories", c13::histories), ("long_histories", c13::long_histories), ("tls_connections", c13::tls_connections)],
         "C14" => vec![("differential", c14::differential)],
         "C15" => vec![("random", c15::random), ("patterns", c15::patterns)],
         "C16" => vec![("paging", c16::paging)],
